@@ -12,6 +12,7 @@ mod c08;
 mod c09;
 mod c16;
 mod c17;
+mod c18;
 mod c19;
 
 use mc_core::Tier;
@@ -56,6 +57,7 @@ fn main() {
         "C09" => c09::run(tier, replay),
         "C16" => c16::run(tier, replay),
         "C17" => c17::run(tier, replay),
+        "C18" => c18::run_check(tier, replay),
         "C19" => c19::run(tier, replay),
         _ => {
             eprintln!("MACHINERY-ERROR: unknown property id {id}");
